@@ -62,6 +62,12 @@ let field (kvs : (string * string) list) (k : string) : string =
 let syms_of (outs : out list) : (z list * z) list =
   List.concat (List.map (function OSym (n, k) -> [(n, k)] | _ -> []) outs)
 
+(* equality observables of a long history: over its first 8 and last 32 returned symbols (same rule as the harness) *)
+let select_syms (l : 'a list) : 'a list =
+  let n = List.length l in
+  if n <= 40 then l
+  else List.filteri (fun i _ -> i < 8 || i >= n - 32) l
+
 (* pairs i<j in order *)
 let eq_bits (f : 'a -> 'a -> bool) (l : 'a list) : string =
   let a = Array.of_list l in
@@ -103,7 +109,7 @@ let () =
       let st0 = { symtable = pre; revsymtable = List.map (fun (n, k) -> (k, n)) pre; nexts = counters } in
       let ext = (field kvs "route" <> "api") in
       let (st1, outs) = run st0 ops in
-      let msyms = syms_of outs in
+      let msyms = select_syms (syms_of outs) in
       let model =
         String.concat "," (List.map show_out outs)
         ^ "|next=" ^ String.concat "," (List.map string_of_z st1.nexts)
@@ -131,7 +137,7 @@ let () =
           match spec_check pre (List.combine ops iouts) O with
           | Some k -> "bad:answer@" ^ string_of_int (int_of_nat k)
           | None ->
-            let isyms = syms_of iouts in
+            let isyms = select_syms (syms_of iouts) in
             let want_eq = eq_bits (fun (a, _) (b, _) -> name_eqb a b) isyms in
             let want_hash = hash_obs (fun (a, _) (b, _) -> name_eqb a b) isyms in
             let want_ne = eq_bits (fun (a, _) (b, _) -> not (name_eqb a b)) isyms in
